@@ -1446,7 +1446,20 @@ fn pattern_case(ctx: &mut Ctx, r: &mut Rng) {
                 match (plain, via_pattern) {
                     (Ok(plain), Ok(via)) => {
                         ctx.distinct(("pattern", shortcut, features(&text) & (F_STAR | F_STARSTAR | F_BRACKET | F_QUEST | F_ESC | F_SLASH), flags, via, value.contains(&b'/')));
-                        if via != plain {
+                        // git's dir.c compares the wildcard-free prefix and hands only the rest to wildmatch (which makes a `**`
+                        // right after the prefix a leading one); an implementation may do either, both are accepted here and
+                        // judged by C37 in the ignore context
+                        let cut_variant = match pat.first_wildcard_pos {
+                            Some(pos) if pos > 0 && !pat.mode.contains(PMode::ENDS_WITH) => {
+                                let prefix_eq = value.len() >= pos
+                                    && if flags & gitwm::WM_CASEFOLD != 0 { value[..pos].eq_ignore_ascii_case(&text[..pos]) } else { value[..pos] == text[..pos] };
+                                Some(prefix_eq && guard(|| gix_wm(&text[pos..], &value[pos..], flags)).unwrap_or(plain))
+                            }
+                            _ => None,
+                        };
+                        if via != plain && cut_variant == Some(via) {
+                            ctx.count("pattern_cases_matching_only_the_prefix_cut_variant");
+                        } else if via != plain {
                             ctx.violation(
                                 &format!("pattern-shortcut|{}|pattern-{}", shortcut, if via { "matches" } else { "rejects" }),
                                 &format!("Pattern({:?}).matches({:?}, {}) = {} but wildmatch() on the same text = {}", show(&text), show(&value), mode_name(flags), via, plain),
